@@ -22,6 +22,10 @@ func FormatFor(group string, order *big.Int) (Format, error) {
 				return NewQRParams(group, rp.P, rp.Q, rp.G)
 			}
 		}
+	case "qr72-r44": // registry instance of harness/internal/groups (P = 44*Q + 1, G = 2^44)
+		p, _ := new(big.Int).SetString("811656739243220271677", 10)
+		g, _ := new(big.Int).SetString("17592186044416", 10)
+		return NewQRParams(group, p, order, g)
 	case "bn256-g1":
 		return &WXY{C: BN256G1, CoefLen: 32, Prefix: -1}, nil
 	case "bn256-g2":
